@@ -70,8 +70,10 @@ theorem sameHdr_maybeAccept (s : State) (b : BlockAbs) : SameHdr s (maybeAccept 
     · split
       · rfl
       · split
-        · exact (sameHdr_connectBest _ _).trans rfl
-        · exact (sameHdr_connectBest _ _).trans rfl
+        · rfl
+        · split
+          · exact (sameHdr_connectBest _ _).trans rfl
+          · exact (sameHdr_connectBest _ _).trans rfl
 
 theorem sameHdr_acceptKids (s : State) (ks : List BlockAbs) (acc : List Hash) (e : Bool) :
     SameHdr s (acceptKids s ks acc e).1 := by
